@@ -83,8 +83,21 @@ def main():
     ap.add_argument("--cases", type=int, required=True)
     args = ap.parse_args()
     from vmon.cli import load_prop
-    prop = load_prop(args.prop)
     k, n = map(int, args.shard.split("/"))
+    try:
+        prop = load_prop(args.prop)
+    except Exception as e:
+        # importing the library itself failed inside the library (in this interpreter's mode: -OO, warnings as errors,
+        # this string-hash seed): nothing can be built or elaborated - a violation of every property, reported once
+        v = crash_violation(e)
+        if v is None:
+            raise
+        v["monitor"], v["mechanism"] = "library_import", "import:" + v["mechanism"]
+        case = {"kind": "import", "stim_seed": f"{args.prop}:{args.seed}:{k}:stim", "tier": args.tier}
+        sys.stdout.write(json.dumps({"violations": [v], "counters": {"crashes": 1}, "bins": {}, "nontrivial": False,
+                                     "summary": {"kind": "import"}, "key": "import", "idx": k, "case": case}, default=str) + "\n")
+        sys.stdout.flush()
+        return
     for idx in range(k, args.cases, n):
         rng = random.Random(f"{prop.ID}:{args.seed}:{idx}")
         case = prop.gen_case(rng, args.tier, idx)
